@@ -149,6 +149,13 @@ def explore_days(chunk):
             for o in range(lo, hi):
                 check_day(agg, o, deep)
                 agg.count("cases")
+                if o % 20011 == 0:
+                    dt = mkdate(o)
+                    D = core.ckl.date
+                    agg.sample({"day": dt.strftime("%Y-%m-%d"),
+                                "reference_day_number": o - BASE,
+                                "to_oa_date": D.to_oa_date(dt),
+                                "to_date": str(D.to_date(o - BASE))}, 4)
         for (y, level) in chunk["years"]:
             for o in boundary_days(y):
                 check_day(agg, o, level != "conv")
@@ -325,9 +332,7 @@ def main(tier, seed):
             sjobs.append({"days": [d], "seconds": c,
                           "lang_every": lang_every})
     agg.merge(core.pmap(explore_seconds, sjobs))
-    agg.sample({"day": "2020-12-31", "day_number": dn(datetime.date(
-        2020, 12, 31)), "plus_1": "2021-01-01"})
-    agg.sample({"strides": STRIDES})
+    agg.sample({"strides_applied_to_boundary_days": STRIDES})
     core.finish(
         PID, tier, seed, agg, t0,
         rule=("every calendar day " +
